@@ -208,6 +208,68 @@ def _arith(ctx, res, FILES, OVF_ALLOWED, ROLE, WHERE, FLOOR):
 
 
 # ---------------------------------------------------------------------------------------------------------------------
+# M-DIV: integer division / remainder on the write and merge paths (a zero divisor is a panic in every build profile)
+
+# (function, kind, type) -> (number of confirmed sites, reason)
+DIV_ALLOWED = {
+    ("utils::cli::bigwigmerge::get_merged_vals::{closure#2}", "DivisionByZero", "usize"):
+        (1, "len / max_bw_fds with max_bw_fds = 996 - 2 * max_zooms, computed once from the options; it does not depend on the input stream "
+            "(zero only for --nzooms 498, an option value outside this property's quantifier)"),
+}
+DIV_FILES = WRITE_PATH + MERGE_PATH + ("bigtools/src/utils/cli/bigwigmerge.rs",)
+
+
+def ob_division(ctx, res):
+    """C13-V2 (type-resolved): every integer `/` and `%` on the write and merge paths has a divisor that is a non-zero constant, or is a confirmed site"""
+    m = _mir(ctx, res)
+    if m is None:
+        return
+    n = 0
+    left = {k: v[0] for k, v in DIV_ALLOWED.items()}
+    for b in m.bodies:
+        if m.rel(b["file"]) not in DIV_FILES:
+            continue
+        for a in b["asserts"]:
+            if a["kind"] not in ("DivisionByZero", "RemainderByZero"):
+                continue
+            n += 1
+            r = a.get("r", "?")
+            mm = re.match(r"const (-?\d+)_", r)
+            if (mm and int(mm.group(1)) != 0) or (r.startswith("const ") and not mm):
+                res.ok(_site(m, b, a), "%s by `%s`: a non-zero constant" % ("division" if a["kind"].startswith("Div") else "remainder", r))
+                continue
+            k = (_short(b["fn"]), a["kind"], a.get("ty", "?"))
+            if left.get(k, 0) > 0:
+                left[k] -= 1
+                res.ok(_site(m, b, a), "%s by `%s`: %s" % (a["kind"], r, DIV_ALLOWED[k][1]))
+                continue
+            res.fail("division/%s/%s/%s" % (k[0], a["kind"], r), _site(m, b, a),
+                     "integer %s by `%s` (%s), which is not a non-zero constant: a zero divisor panics (`attempt to divide by zero`) - e.g. the item count of a value "
+                     "stream that yields no items. Divide in floating point, test the divisor first, or list the site with the reason it cannot be zero"
+                     % ("division" if a["kind"].startswith("Div") else "remainder", r, a.get("ty", "?")))
+        # the panicking division methods of the integer types and `/`/`%` through the operator traits on references check inside core
+        for c in b["calls"]:
+            mm = re.match(r"core::num::<impl ([iu](?:8|16|32|64|128|size))>::(div_ceil|div_euclid|rem_euclid|div_floor|next_multiple_of|rem|div)$", c["callee"]) or \
+                re.match(r"<&(?:'\w+ )?(?:mut )?([iu](?:8|16|32|64|128|size)) as std::ops::(Div|Rem)<&?(?:'\w+ )?[iu](?:8|16|32|64|128|size)>>::(?:div|rem)$", c["callee"])
+            if not mm:
+                continue
+            n += 1
+            k = (_short(b["fn"]), mm.group(2), mm.group(1))
+            if left.get(k, 0) > 0:
+                left[k] -= 1
+                res.ok(_site(m, b, c), "%s: %s" % (c["callee"], DIV_ALLOWED[k][1]))
+                continue
+            res.fail("division/%s/%s/call" % (k[0], mm.group(2)), _site(m, b, c),
+                     "`%s` panics on a zero divisor and the divisor is not visible as a constant here; test the divisor first or list the site with the reason it cannot be zero" % c["callee"])
+    res.count("division_sites_on_path", n)
+    if n < 5:
+        res.fail("division/floor", "bigtools", "only %d integer division sites seen on the write/merge path (expected >= 5): MIR facts incomplete" % n)
+        return
+    if not [v for v in res.violations if v["role"].startswith("division/")]:
+        res.ok("write/merge path (MIR)", "%d integer division/remainder sites: divisor a non-zero constant, or a confirmed site" % n)
+
+
+# ---------------------------------------------------------------------------------------------------------------------
 # M-HASH: iteration over a hash container (unspecified order) in library code
 
 HASH_ITER = re.compile(r"std::collections::(hash_map::|hash_set::)?(HashMap|HashSet)::<[^>]*>::(iter|iter_mut|into_iter|keys|values|values_mut|into_keys|into_values|drain)$|"
